@@ -382,7 +382,8 @@ def get_first_body_node_loc(body):
         return None
 
     if type(body[0]).__name__ in ('FunctionDef', 'AsyncFunctionDef', 'ClassDef') and body[0].decorator_list:  # type: ignore[attr-defined]
-        return body[0].decorator_list[0].lineno, body[0].col_offset  # type: ignore[attr-defined]
+        # a decorated definition starts with its first decorator
+        return np(body[0].decorator_list[0])  # type: ignore[attr-defined]
 
     for n in body:
         if n.col_offset >= 0:
@@ -495,7 +496,7 @@ class ClassScope(Scope, Location, Resolvable):
         Scope.__init__(self, parent, top)
         self.name = node.name
         self.declared_at = top.find_def_loc(node.name, np(node))
-        self.location = np(node.body[0])
+        self.location = get_first_body_node_loc(node.body) or np(node.body[0])
         self.flow = self.top.add_flow(Flow('class', self))
         self._bases = node.bases
 
